@@ -56,6 +56,9 @@ pub struct Case {
     /// its non-zero status must still fail the build, and it must not be run again
     #[serde(default)]
     pub fails_once: bool,
+    /// the failing command does not exit at all: its shell is killed by a signal
+    #[serde(default)]
+    pub killed: bool,
 }
 
 fn gen_case(c: &mut Choices) -> Case {
@@ -95,6 +98,7 @@ fn gen_case(c: &mut Choices) -> Case {
         threads: 1 + c.below(4),
         input_by_output_name: c.chance(1, 2),
         fails_once: c.chance(1, 2),
+        killed: c.chance(1, 4),
     }
 }
 
@@ -168,7 +172,9 @@ pub fn check(case: &Case, st: &mut Stats) -> Check {
     text.push_str("B\n");
     let flag = r.join("flag");
     let runs_log = r.join("runs.log");
-    let failing_cmd = if case.fails_once && case.dumper.is_none() {
+    let failing_cmd = if case.killed && case.dumper.is_none() {
+        "echo partial; kill -KILL $$".to_string()
+    } else if case.fails_once && case.dumper.is_none() {
         format!(
             "echo run >> {}; if [ -e {} ]; then echo again; else touch {}; exit {}; fi",
             runs_log.display(),
@@ -309,7 +315,7 @@ pub fn check(case: &Case, st: &mut Stats) -> Check {
             ),
         );
     }
-    if case.exit_code != 0 && case.fails_once && case.dumper.is_none() {
+    if case.exit_code != 0 && case.fails_once && !case.killed && case.dumper.is_none() {
         let n = std::fs::read_to_string(&runs_log).map(|s| s.lines().count()).unwrap_or(0);
         if n != 1 {
             return viol(
@@ -411,7 +417,7 @@ impl Prop for C17 {
         PropMeta {
             id: "C17",
             level: "exploration",
-            rule: "cases = source at depth 0-3 below the base directory x entry point {library in-process with absolute base and unrelated cwd; library in a child process with cwd == base ('.'), cwd below base ('../..'), unrelated cwd (absolute base), cwd above base (relative name); the txtpp binary; the binary with TXTPP_FILE already set} x shell {default sh -c; an argv-dumping script with 0-2 extra configured arguments} x multi-line commands (0-3 continuation lines, prefix or space form, leading/trailing blanks) x exit status (0 or 1-200) x input named by source or output name. Oracle: `pwd` (or the dumper's cwd record) equals the canonical directory of the source; TXTPP_FILE joined to the base designates the source (absolute or base-relative accepted); the dumper received exactly the configured arguments followed by ONE argument equal to the lines joined by single spaces; stdout is spliced into the output; non-zero status fails the run (and the binary's exit status is non-zero); with TXTPP_FILE set the binary exits non-zero and changes nothing. Non-trivial = depth >=1 with base != cwd, or overridden shell, or multi-line command; distinct by hash.",
+            rule: "cases = source at depth 0-3 below the base directory x entry point {library in-process with absolute base and unrelated cwd; library in a child process with cwd == base ('.'), cwd below base ('../..'), unrelated cwd (absolute base), cwd above base (relative name); the txtpp binary; the binary with TXTPP_FILE already set} x shell {default sh -c; an argv-dumping script with 0-2 extra configured arguments} x multi-line commands (0-3 continuation lines, prefix or space form, leading/trailing blanks) x exit status (0; 1-255 with the usual suspects favoured; a command that fails only the first time it runs and logs each execution; a shell killed by a signal) x input named by source or output name. Oracle: `pwd` (or the dumper's cwd record) equals the canonical directory of the source; TXTPP_FILE joined to the base designates the source (absolute or base-relative accepted); the dumper received exactly the configured arguments followed by ONE argument equal to the lines joined by single spaces; stdout is spliced into the output; non-zero status fails the run (and the binary's exit status is non-zero); with TXTPP_FILE set the binary exits non-zero and changes nothing. Non-trivial = depth >=1 with base != cwd, or overridden shell, or multi-line command; distinct by hash.",
             assumptions: vec!["the README says TXTPP_FILE is absolute while a repository fixture pins a base-relative value: only 'designates the source' is asserted"],
             hang_is_violation: false,
             needs_cli: true,
